@@ -261,6 +261,7 @@ Proof.
               match fst x with
               | ECall _ _ _ _ => Ok (SCall (fst x), snd x)
               | EName _ | EIndex _ _ =>
+                if bracketed ts (snd x) then Err (snd x) else
                 bind (more_vars (S (length ts)) (snd x)) (fun vs =>
                   match snd vs with
                   | TAssign :: r2 => bind (explist_at r2) (fun es => Ok (SAssign (fst x :: fst vs) (fst es), snd es))
